@@ -101,7 +101,9 @@ pub fn record(a: &Args) -> Report {
   let mut nshares_logged = 0usize;
   let mut deal_no = 0usize;
   for d in 0..deals {
-    let t: u32 = match d % 8 {
+    // thresholds are swept (deal d uses t = d for d <= --sweep), then sampled
+    let sweep = a.u64("sweep", 0);
+    let t: u32 = if d <= sweep { d as u32 } else { match d % 8 {
       0 => 1,
       1 => 2,
       2 => 3,
@@ -110,8 +112,11 @@ pub fn record(a: &Args) -> Report {
       5 => rng.gen_range(9..=maxt.max(9)),
       6 => maxt,
       _ => rng.gen_range(2..=maxt.max(2)),
-    };
-    let k: usize = if t > 12 { rng.gen_range(1..=2) } else if d % 5 == 4 { 16 } else if d % 7 == 0 { 0 } else { rng.gen_range(1..=3) };
+    } };
+    // element counts: mostly 1-3, every count 0..16 appears for small thresholds
+    let k: usize = if d <= sweep && t <= 3 { [2usize, 3, 16, 5][t as usize] }
+      else if d <= sweep { 1 + (d as usize % 3) }
+      else if t > 12 { rng.gen_range(1..=2) } else if d % 5 == 4 { 16 } else if d % 7 == 0 { 0 } else { rng.gen_range(1..=3) };
     let k = if t > 6 && k > 4 { 2 } else { k };
     // secret elements from the boundary lattice and random ones
     let elems: Vec<BigUint> = (0..k)
